@@ -1,15 +1,26 @@
 import SaModel.Spec.Present
-import SaModel.Read.ToD
+import SaModel.Read.PresentCodec
+import SaModel.Read.Cast
 /-
-C02 — the reader model's leaf renderings (`Read.primAny`, `Read.timeAny`, `Read.u8As .any`, the leaf clauses of `Read.toD`) are
-the specification's own statement `Spec.presentPrim` / `presentTime` / `presentByte` (Spec/Present.lean, which does not
-import the reader model).  With `Props.C02.read_any_decode` (`readAny … = ok (toD a lv)`): what `deserialize_any` hands to the
-visitor at a primitive / time column is `Spec.presentPrim ty x` / `Spec.presentTime ty x`.
-Still shared: `Read.f16ToF32` (Read/DVal.lean, the exact widening on bit patterns) stands on both sides; the typed
-conversions of `Read.cast` (`castLeaf`, `u8As` for integer targets) are not restated.
+C02 — the ONE place where the reader-side specification `Spec/Present.lean` (written from the documentation; imports nothing of
+`Read/*`) meets the functions the C02 / C05 theorems were stated with (`Read.toD`, `Read.castLeaf`, `Read.castScalar` and the
+helpers of `Read.cast`, which call the reader model's `primAny` / `timeAny` / `dateRepr` / … / `f64ToF32`): they compute the
+independent tables, for EVERY cell (no hypothesis on target, column or value).
+
+  `readCodec`                 the `TextCodec` of the reader model (`Codec/*.lean` through `dateRepr` …): the only shared part
+  `toD_eq_present`            `Read.toD a lv = Spec.presentAny readCodec a lv`                      (∀ a lv, any nesting)
+  `castLeaf_eq_present`       `demandOf (ofLeaf (castLeaf t a lv)) = presentLeaf readCodec t (leafKind a lv)`   (∀ t a lv)
+  `castScalar_eq_present`     `demandOf (castScalar t a lv) = presentScalar readCodec t a lv`
+  `u8Claim_eq_present`, `mapKeyClaim_eq_present`, `castVariantStr_eq_present`, and the combinators (`consClaim` … = `Demand.cons` …)
+
+`demandOf` forgets the message of a must-fail claim (`Demand.fails` carries none).  The typed reads of every target:
+`Lemmas/C02PresentBridgeTyped.lean` (`cast_eq_typedRead`).  Still shared by both sides: `f16ToF32`, `f32ToF64` (`Data/DVal.lean`: the exact
+widenings on bit patterns), `Float.convert` (`Basic/Float.lean`: the narrowing f64 → f32), and the texts of `readCodec`.
 -/
 namespace SaModel.Props.C02
 open SaModel SaModel.Read SaModel.Spec
+
+/-! ### the leaf renderings of `deserialize_any` -/
 
 theorem primAny_eq_present (ty : PrimTy) (x : Int) : primAny ty x = presentPrim ty x := by
   cases ty <;> rfl
@@ -36,5 +47,152 @@ theorem toD_time_int (ty : TimeTy) (u : TimeUnit) (v : Option Bits) (vals : List
 example : presentPrim .date32 18262 = .int .i32 18262 ∧ presentPrim .float16 0x3C00 = .f32 0x3F800000 ∧
     presentTime .duration (-5) = .int .i64 (-5) ∧ presentPrim .uint64 18446744073709551615 = .int .u64 18446744073709551615 := by
   decide
+
+/-! ### the codec of the reader model as the parameter of the specification
+
+`Read.readCodec` (`Read/PresentCodec.lean`): the texts the reader model renders (`Codec.dateToString`, `timeToString`,
+`timestampToString`, `formatArrowDurationAsSpan`, `Decimal.formatDecimal` — the functions of C14 / C15). -/
+
+/-- a claim of `Read.cast` as a demand of the specification: the message of a must-fail claim is dropped -/
+def demandOf {α : Type} : R (Option α) → Demand α
+  | .ok (some a) => .value a
+  | .ok none => .unclaimed
+  | .error _ => .fails
+
+@[simp] theorem demandOf_must (d : DVal) : demandOf (must d) = .value d := rfl
+@[simp] theorem demandOf_mustFail (w : String) : demandOf (mustFail w : Claim) = .fails := rfl
+@[simp] theorem demandOf_na : demandOf na = (.unclaimed : Demand DVal) := rfl
+@[simp] theorem demandOf_unsupported : demandOf (ofLeaf (some unsupported)) = .fails := rfl
+
+theorem demandOf_value_iff {α : Type} {x : R (Option α)} {a : α} : demandOf x = .value a ↔ x = .ok (some a) := by
+  cases x with
+  | error e => simp [demandOf]
+  | ok o => cases o <;> simp [demandOf]
+
+theorem demandOf_fails_iff {α : Type} {x : R (Option α)} : demandOf x = .fails ↔ ∃ e, x = .error e := by
+  cases x with
+  | error e => simp [demandOf]
+  | ok o => cases o <;> simp [demandOf]
+
+theorem demandOf_unclaimed_iff {α : Type} {x : R (Option α)} : demandOf x = .unclaimed ↔ x = .ok none := by
+  cases x with
+  | error e => simp [demandOf]
+  | ok o => cases o <;> simp [demandOf]
+
+/-- an owned text: `ofLeaf (some (r.map f))` against `createdText` -/
+theorem demandOf_ofLeaf_map (r : R Bytes) (f : Bytes → DVal) :
+    demandOf (ofLeaf (some (r.map f))) = (Demand.ofOption r.toOption).map f := by
+  cases r <;> rfl
+
+/-! ### `deserialize_any`: `toD` is `presentAny` -/
+
+theorem findId_eq_variantOf : ∀ (fs : ArrUFields) (t : Int), ArrUFields.findId fs t = variantOf fs t
+  | .nil, _ => rfl
+  | .cons i fm a r, t => by simp only [ArrUFields.findId, variantOf, findId_eq_variantOf r t]
+
+mutual
+theorem toD_eq_present : ∀ (a : Arr) (lv : LVal), toD a lv = presentAny readCodec a lv
+  | a, .null => by cases a <;> simp only [toD, presentAny]
+  | a, .bool b => by cases a <;> simp only [toD, presentAny]
+  | a, .int x => by
+    cases a <;> simp only [toD, presentAny, primAny_eq_present, timeAny_eq_present, readCodec]
+  | a, .float x => by cases a <;> simp only [toD, presentAny, primAny_eq_present]
+  | a, .str b => by cases a <;> simp only [toD, presentAny]
+  | a, .bin b => by cases a <;> simp only [toD, presentAny]
+  | a, .list items => by
+    cases a <;> simp only [toD, presentAny, toDList_eq_present]
+  | a, .struct lfs => by
+    cases a <;> simp only [toD, presentAny, toDFields_eq_present]
+  | a, .map es => by
+    cases a <;> simp only [toD, presentAny, toDEntries_eq_present]
+  | a, .union t v => by
+    cases a <;> simp only [toD, presentAny, findId_eq_variantOf]
+    rename_i fs
+    cases variantOf fs t with
+    | none => rfl
+    | some p => obtain ⟨fm, child⟩ := p; simp only [toD_eq_present child v]
+theorem toDList_eq_present : ∀ (el : Arr) (items : LVals), toDList el items = presentItems readCodec el items
+  | _, .nil => by simp only [toDList, presentItems]
+  | el, .cons v r => by simp only [toDList, presentItems, toD_eq_present el v, toDList_eq_present el r]
+theorem toDFields_eq_present : ∀ (fs : ArrFields) (lfs : LFields), toDFields fs lfs = presentFields readCodec fs lfs
+  | .nil, .nil => by simp only [toDFields, presentFields]
+  | .nil, .cons _ _ _ => by simp only [toDFields, presentFields]
+  | .cons _ _ _, .nil => by simp only [toDFields, presentFields]
+  | .cons fm a rest, .cons n v lrest => by
+    simp only [toDFields, presentFields, toD_eq_present a v, toDFields_eq_present rest lrest]
+theorem toDEntries_eq_present : ∀ (ks vs : Arr) (es : LEntries), toDEntries ks vs es = presentEntries readCodec ks vs es
+  | _, _, .nil => by simp only [toDEntries, presentEntries]
+  | ks, vs, .cons k v r => by
+    simp only [toDEntries, presentEntries, toD_eq_present ks k, toD_eq_present vs v, toDEntries_eq_present ks vs r]
+end
+
+/-! ### the leaf table -/
+
+theorem contains_i32_i64 (ty : IntTy) : [IntTy.i32, IntTy.i64].contains ty = (ty == .i32 || ty == .i64) := by
+  cases ty <;> rfl
+
+theorem contains_i64 (ty : IntTy) : [IntTy.i64].contains ty = (ty == .i64) := by
+  cases ty <;> rfl
+
+theorem isIntPrim_eq (ty : PrimTy) : isIntPrim ty = intWidth ty := by cases ty <;> rfl
+
+theorem isScalarValue_eq (c : Nat) : isScalarValue c = isUnicodeScalar c := rfl
+
+theorem f64ToF32_eq (x : Int) : f64ToF32 x = narrow x := rfl
+
+theorem tzIsUtc_eq (tz : Option String) : tzIsUtc tz = zoneIsUtc tz := by cases tz <;> rfl
+
+/-- an integer stored in a temporal column, requested as `ty`: the row of `castLeaf` against `storedAs` -/
+theorem stored_eq (ok : Bool) (ty : IntTy) (x : Int) :
+    demandOf (ofLeaf (if ok then (if ty.inRange x then some (.ok (.int ty x)) else some (fail "out of range")) else some unsupported))
+      = (if ok then (if ty.inRange x then Demand.value (DVal.int ty x) else .fails) else .fails) := by
+  cases ok <;> simp only [Bool.false_eq_true, if_false, if_true] <;> first | rfl | (cases ty.inRange x <;> rfl)
+
+/-- closes a cell of the leaf table in which both sides compute -/
+macro "leaf_cell" : tactic =>
+  `(tactic| first
+    | rfl
+    | (simp (config := { decide := true }) [castLeaf, leafKind, presentLeaf, numberAs, storedAs, createdText, ofLeaf, demandOf,
+        unsupported, fail, must, intWidth, isIntPrim]; done))
+
+theorem demandOf_ofLeaf_ite (c : Prop) [Decidable c] (x y : Option (R DVal)) :
+    demandOf (ofLeaf (if c then x else y)) = if c then demandOf (ofLeaf x) else demandOf (ofLeaf y) := by
+  split <;> rfl
+
+theorem demandOf_ofLeaf_ok (d : DVal) : demandOf (ofLeaf (some (.ok d))) = .value d := rfl
+theorem demandOf_ofLeaf_fail (w : String) : demandOf (ofLeaf (some (fail w))) = .fails := rfl
+
+/-- the same for the cells with a range check or a created text -/
+macro "leaf_int" : tactic =>
+  `(tactic| first
+    | rfl
+    | exact demandOf_ofLeaf_map _ _
+    | (simp (config := { decide := true }) [castLeaf, leafKind, presentLeaf, numberAs, storedAs, createdText, intWidth, isIntPrim,
+        contains_i32_i64, contains_i64, isScalarValue_eq, demandOf_ofLeaf_ite, demandOf_ofLeaf_ok, demandOf_ofLeaf_fail,
+        demandOf_unsupported, demandOf_ofLeaf_map]; done))
+
+/-- **every cell of the leaf table**: scalar target × column × logical value (type-inconsistent pairs included) -/
+theorem castLeaf_eq_present (t : Target) (a : Arr) (lv : LVal) :
+    demandOf (ofLeaf (castLeaf t a lv)) = presentLeaf readCodec t (leafKind a lv) := by
+  cases lv with
+  | null => cases a <;> cases t <;> leaf_cell
+  | list _ => cases a <;> cases t <;> leaf_cell
+  | struct _ => cases a <;> cases t <;> leaf_cell
+  | map _ => cases a <;> cases t <;> leaf_cell
+  | union _ _ => cases a <;> cases t <;> leaf_cell
+  | bool b => cases a <;> cases t <;> leaf_cell
+  | bin b => cases a <;> cases t <;> leaf_cell
+  | str b => cases a <;> cases t <;> leaf_cell
+  | float x =>
+    cases a with
+    | prim ty v vals => cases ty <;> cases t <;> leaf_cell
+    | _ => cases t <;> leaf_cell
+  | int x =>
+    cases a with
+    | prim ty v vals => cases ty <;> cases t <;> leaf_int
+    | time ty u v vals => cases ty <;> cases t <;> leaf_int
+    | timestamp u tz v vals => cases t <;> first | leaf_int | (rename_i ity; cases ity <;> leaf_int)
+    | decimal128 p s v vals => cases t <;> leaf_int
+    | _ => cases t <;> leaf_cell
 
 end SaModel.Props.C02
